@@ -74,9 +74,10 @@ def judge(ctx, res, tests, cfg, name, args):
         t = obs[idx]
         case = tests[t["index"]] if t.get("index") is not None and t["index"] < len(tests) else None
         o = t["obs"]
-        what = "%s: after %s (step %s) tip=%d locks=%s pruned files %s holding heights %s" % (
-            CLAUSES.get(inv, inv), json.dumps(t.get("action")), t.get("step"), o["tip"], o["locks"], o["pruned"],
-            [(f, (min(o["heights"][f]), max(o["heights"][f])) if o["heights"][f] else None) for f in o["pruned"]][:6])
+        spans = [(f, min(o["heights"][f]), max(o["heights"][f])) for f in o["pruned"] if o["heights"][f]]
+        top = sorted(spans, key=lambda x: -x[2])[:3]
+        what = "%s: after %s (step %s) tip=%d locks=%s usage %s -> %s; %d files pruned, the highest (file, first height, last height): %s" % (
+            CLAUSES.get(inv, inv), json.dumps(t.get("action")), t.get("step"), o["tip"], o["locks"], o["usage0"], o["usage1"], len(o["pruned"]), top)
         key = CORNER_KEYS.get(inv) or "prune:%s:%s" % (inv, vflib.digest([t.get("action"), o["tip"], o["locks"], o["pruned"]]))
         if ctx.violation(key, what, dict(adapter="prune", mode="replay", args=list(args), case=case, observation=o, clause=inv)):
             n_viol += 1
@@ -94,7 +95,7 @@ def run(ctx):
     # 2. directed behaviours + simulation with the real constants (manual pruning, 64 KiB files)
     tests = script_tests(ctx, "E1_directed.cfg", "directed")
     n_directed = len(tests)
-    nsim, depth = (60, 12) if thorough else (8, 9)
+    nsim, depth = (40, 12) if thorough else (8, 9)
     rs = ctx.tlc("Prune", "MCPrune", "Sim_manual.cfg", simulate=(nsim, depth), env=TLC_ENV, timeout=2400)
     tests += vflib.sim_behaviours(rs.emit_path)
     count_actions(tests, acc)
@@ -111,7 +112,7 @@ def run(ctx):
     # 3. automatic pruning (thorough): one-megabyte blocks against the 550 MiB floor of the target
     if thorough:
         atests = script_tests(ctx, "E1_auto.cfg", "directed_auto")
-        ra = ctx.tlc("Prune", "MCPrune", "Sim_auto.cfg", name="Sim_auto", simulate=(4, 9), env=TLC_ENV, timeout=2400)
+        ra = ctx.tlc("Prune", "MCPrune", "Sim_auto.cfg", name="Sim_auto", simulate=(3, 8), env=TLC_ENV, timeout=2400)
         atests += vflib.sim_behaviours(ra.emit_path)
         aacc = collections.Counter(); count_actions(atests, aacc)
         if not (aacc["step_prunes:connect"] and aacc["step_prunes:auto"]):
